@@ -10,6 +10,7 @@ outcomes(fn, pv): every assignment to the return place, classified:
     kind = 'ok' | 'err' | 'propagate' | 'call' | 'value'
 """
 from .prov import is_call, mk_phi
+from .facts import callee_path
 
 FROM_RESIDUAL = "core::ops::try_trait::FromResidual::from_residual"
 
@@ -393,3 +394,62 @@ def path_rows(fn, pv, limit=4000, precise=False):
 
     go(0, [], [])
     return rows
+
+
+_TRY_BRANCH = "core::ops::try_trait::Try::branch"
+
+
+def reach_tracking_failures(f, start, avoid):
+    """blocks reachable from `start` without entering a block of `avoid`, not following infeasible failure edges.
+
+    The walk carries the locals known to hold a failure: a value made by from_residual / `Err(..)`, a plain move of one,
+    `Try::branch` of one (known Break); a later test of such a local (the `?` of the caller after a `?` in an inlined helper,
+    `let r = match .. {Err(e) => Err(wrap(e)), ..}; r?`) follows its failure edge only."""
+    FROM_RESIDUAL = "core::ops::try_trait::FromResidual::from_residual"
+    seen_states, seen = set(), set()
+    stack = [(start, frozenset(), frozenset())]
+    while stack:
+        bb, fail, dval = stack.pop()
+        if bb in avoid or (bb, fail, dval) in seen_states or len(seen_states) > 20000:
+            continue
+        seen_states.add((bb, fail, dval))
+        seen.add(bb)
+        blk = f.blocks[bb]
+        fail, dv = set(fail), dict(dval)
+        for s in blk["stmts"]:
+            if s["k"] != "assign":
+                continue
+            d, rv = s["dst"], s["rv"]
+            if d["p"]:
+                continue
+            l = d["l"]
+            fail.discard(l)
+            dv.pop(l, None)
+            if rv["k"] == "use" and rv["op"]["k"] in ("move", "copy") and not rv["op"]["place"]["p"] and rv["op"]["place"]["l"] in fail:
+                fail.add(l)
+            elif rv["k"] == "aggr" and rv.get("adt") == "core::result::Result" and rv.get("variant") == "Err":
+                fail.add(l)
+            elif rv["k"] == "discr" and not rv["place"]["p"] and rv["place"]["l"] in fail:
+                dv[l] = 1       # Result::Err and ControlFlow::Break both have discriminant 1
+            elif rv["k"] == "use" and rv["op"]["k"] in ("move", "copy") and not rv["op"]["place"]["p"] and rv["op"]["place"]["l"] in dv:
+                dv[l] = dv[rv["op"]["place"]["l"]]
+        t = blk["term"]
+        succ = [y for y in f.cfg.succ[bb] if not f.blocks[y]["cleanup"]]
+        if t["k"] == "call" and not t["dest"]["p"]:
+            l = t["dest"]["l"]
+            fail.discard(l)
+            dv.pop(l, None)
+            name = callee_path(t)
+            a0 = t["args"][0] if t["args"] else None
+            if name == FROM_RESIDUAL and "Result<" in (f.local_ty(l) or ""):
+                fail.add(l)
+            elif name == _TRY_BRANCH and a0 and a0["k"] in ("move", "copy") and not a0["place"]["p"] and a0["place"]["l"] in fail:
+                fail.add(l)
+        elif t["k"] == "switch" and t["op"]["k"] in ("move", "copy") and not t["op"]["place"]["p"] and t["op"]["place"]["l"] in dv:
+            v = dv[t["op"]["place"]["l"]]
+            tg = [b for val, b in t["targets"] if val == v]
+            succ = tg[:1] if tg else [t["otherwise"]]
+        st = (frozenset(fail), frozenset(dv.items()))
+        for y in succ:
+            stack.append((y, st[0], st[1]))
+    return seen
